@@ -177,11 +177,34 @@ fn all_strings(alpha: &[u8], len: usize, f: &mut dyn FnMut(&[u8])) {
 }
 
 fn run_one(rep: &mut Report, args: &Args, contig: &[u8], k: usize, set: &AHashSet<u64>, kind: &str, case: &str) {
-    for (fname, segs) in [
-        ("split_at_splitters_with_size", split_at_splitters_with_size(&contig.to_vec(), set, k, 0)),
-        ("split_at_splitters", split_at_splitters(&contig.to_vec(), set, k)),
-    ] {
+    for fname in ["split_at_splitters_with_size", "split_at_splitters"] {
         rep.evaluations += 1;
+        let r = std::panic::catch_unwind(std::panic::AssertUnwindSafe(|| {
+            if fname == "split_at_splitters" {
+                split_at_splitters(&contig.to_vec(), set, k)
+            } else {
+                split_at_splitters_with_size(&contig.to_vec(), set, k, 0)
+            }
+        }));
+        let segs = match r {
+            Ok(s) => s,
+            Err(p) => {
+                let msg = p.downcast_ref::<String>().cloned().or_else(|| p.downcast_ref::<&str>().map(|s| s.to_string())).unwrap_or_default();
+                rep.violation(
+                    &format!("C10:{}:panic", fname),
+                    jobj(&[
+                        ("what", jstr(&format!("panic: {} panicked (k={}, build with {}): {}", fname, k, if cfg!(debug_assertions) { "overflow checks" } else { "optimisations" }, msg))),
+                        ("workload", jstr("vq seg")),
+                        ("function", jstr(fname)),
+                        ("seed", args.seed.to_string()),
+                        ("case", jstr(case)),
+                        ("k", k.to_string()),
+                        ("contig", jstr(&vcommon::clip(&codes_to_string(contig), 1000))),
+                    ]),
+                );
+                continue;
+            }
+        };
         match check_tiling(contig, k, set, &segs) {
             Ok((n, z)) => {
                 rep.count(&format!("cases_{}", kind), 1);
@@ -225,6 +248,7 @@ fn run_one(rep: &mut Report, args: &Args, contig: &[u8], k: usize, set: &AHashSe
 }
 
 pub fn run(args: &Args, rep: &mut Report) {
+    std::panic::set_hook(Box::new(|_| {}));
     let miri = cfg!(miri);
     let t = args.tier_thorough;
     if args.case.as_deref() == Some("direct") {
